@@ -220,6 +220,7 @@ def install(spec: Spec):
     m[('Loop', 'create_task')] = create_task
     m[('Loop', 'time')] = loop_time
     install2(spec)
+    install3(spec)
     spec.builtin_effects.update({
         'put_nowait': ['q_items', 'q_unfinished'], 'get_nowait': ['q_items'], 'task_done': ['q_unfinished'],
         'set': ['ev_set'], 'clear': ['ev_set'], 'cancel': ['task_cancel_requested'], 'shutdown': ['_is_shutdown'],
@@ -315,6 +316,14 @@ def task_await(ex, task: V):
     model = info.get('await_model')
     if model is not None:
         return model(ex, task)
+    if info['coro'] is not None and info['coro'][1].startswith('local:'):
+        # a helper task of the function itself (e.g. the deadlock monitor): awaiting it after cancel() raises its CancelledError
+        ex.suspend('await helper task')
+        if info['state'] == 'cancel_requested':
+            info['state'] = 'cancelled'
+            raise RaiseSig(ex.fresh_exc('CancelledError', base='helper_task_cancelled', exact=True), 'await cancelled helper task')
+        info['state'] = 'done'
+        return mk_none()
     if info['coro'] is not None and info['coro'][1] in ('CleanShutdownQueue.get',):
         ex.suspend('await task')
         complete_task(ex, task)
@@ -328,3 +337,114 @@ def install2(spec: Spec):
     spec.builtins['asyncio.wait'] = asyncio_wait
     spec.builtins['Task#await'] = task_await
     spec.builtin_effects.update({'wait': ['q_items', 'task_done'], 'get': ['q_items']})
+
+
+# ------------------------------------------------------------------ asyncio.wait_for (A3)
+def coro_of(v: V):
+    if v.ty.kind == 'py' and v.py[0] == 'coro':
+        return v.py, None
+    info = task_info(v)
+    if info is not None and info['coro'] is not None:
+        return info['coro'], info
+    if v.py and v.py[0] == 'future':
+        return ('coro', 'Future', {'self': v}), None
+    raise Unsupported('wait_for of %r' % (v,))
+
+
+def complete_coro(ex, coro):
+    """The awaited thing finishes now: returns its value or raises its exception (no further suspension here)."""
+    key = coro[1]
+    if key.startswith('user:'):
+        return coro[2]['run'](ex)
+    if key == 'AsyncEvent.wait':
+        e = coro[2]['self']
+        ex.assume(ex.read_field(e.term, 'ev_set').term)
+        return mk_bool(True)
+    if key == 'Queue.join':
+        q = coro[2]['self']
+        ex.assume(ex.read_field(q.term, 'q_unfinished').term == 0)
+        return mk_none()
+    if key == 'CleanShutdownQueue.get':
+        kind, v = queue_get_effect(ex, coro[2]['self'])
+        if kind == 'ok':
+            return v
+        raise RaiseSig(v, 'Queue.get')
+    if key == 'Future':
+        f = coro[2]['self']
+        return future_result(ex, f)
+    if key.startswith('local:'):
+        return mk_none()
+    raise Unsupported('completion of %s' % key)
+
+
+def wait_for(ex, n, awaited, recv=None):
+    aw = ex.eval(n.args[0])
+    tmo = kw(n, 'timeout') or (n.args[1] if len(n.args) > 1 else None)
+    tv = ex.eval(tmo) if tmo is not None else mk_none()
+    if not awaited:
+        raise Unsupported('asyncio.wait_for not awaited')
+    coro, info = coro_of(aw)
+    if info is not None and info['state'] == 'done':
+        return task_await(ex, aw)
+    try:
+        ex.suspend('asyncio.wait_for(%s)' % coro[1])
+    except RaiseSig:
+        if info is not None:
+            info['state'] = 'cancelled'          # A3: cancelling the waiter cancels the inner awaitable
+            ex.write_field(aw.term, 'task_done', mk_bool(True))
+        raise
+    can_timeout = z3.BoolVal(True)
+    if tv.ty.kind == 'obj':
+        can_timeout = tv.term != NONE
+    i = ex.choice([None, can_timeout], 'wait_for: completes or times out')
+    if i == 1:
+        ex.st.trace.append('wait_for:timeout')
+        if info is not None:
+            info['state'] = 'cancelled'          # A3: on expiry the inner awaitable has been cancelled and awaited
+            ex.write_field(aw.term, 'task_done', mk_bool(True))
+        if coro[1].startswith('user:') and coro[2].get('on_timeout'):
+            coro[2]['on_timeout'](ex)
+        raise RaiseSig(ex.fresh_exc('TimeoutError', base='wait_for_timeout', exact=True), 'asyncio.wait_for')
+    if info is not None:
+        info['state'] = 'done'
+        ex.write_field(aw.term, 'task_done', mk_bool(True))
+    return complete_coro(ex, coro)
+
+
+def future_new(ex, n, awaited, recv=None):
+    f = ex.fresh_obj('Future', 'future')
+    ex.write_field(f.term, 'fut_done', mk_bool(False))
+    return V(f.ty, f.term, py=('future', {}))
+
+
+def future_done(ex, n, awaited, recv):
+    return ex.read_field(recv.term, 'fut_done')
+
+
+def future_set_result(ex, n, awaited, recv):
+    done = ex.read_field(recv.term, 'fut_done').term
+    ex.safety('InvalidStateError', z3.Not(done), 'future_already_done')
+    ex.write_field(recv.term, 'fut_done', mk_bool(True))
+    ex.write_field(recv.term, 'fut_result', coerce(ex.eval(n.args[0]), ANY))
+    return mk_none()
+
+
+def future_result(ex, f: V):
+    ex.assume(ex.read_field(f.term, 'fut_done').term)
+    return ex.read_field(f.term, 'fut_result')
+
+
+def future_await(ex, f: V):
+    ex.suspend('await future')
+    return future_result(ex, f)
+
+
+def install3(spec: Spec):
+    spec.field('fut_done', 'bool')
+    spec.field('fut_result', 'any')
+    spec.builtins['asyncio.wait_for'] = wait_for
+    spec.builtins['Future.__new__'] = future_new
+    spec.builtins['Future#await'] = future_await
+    spec.methods[('Future', 'done')] = future_done
+    spec.methods[('Future', 'set_result')] = future_set_result
+    spec.builtin_effects.update({'wait_for': ['task_done'], 'set_result': ['fut_done', 'fut_result']})
